@@ -45,7 +45,7 @@ Section RaceConc.
     mop_clean m = true -> acc_ok (snd (exec_mop g s tid t m rest)) = true.
   Proof.
     intros Hc. unfold acc_ok. destruct t as [regs prog cont out].
-    destruct m as [p i first keep|p i cand keep|delta after|h|r|r report|tb p i|p o]; cbn [exec_mop].
+    destruct m as [p i rt first keep|p i off cand keep|delta after|h|r|r report|tb p i|p o]; cbn [exec_mop].
     - destruct (slot_lookup (c_slots s) (i :: p)); [|destruct (child_is_node g p i)]; cbn [snd acc_ok_from]; rewrite !Nat.eqb_refl; reflexivity.
     - destruct (slot_lookup (c_slots s) (i :: p)); cbn [snd acc_ok_from]; rewrite !Nat.eqb_refl; reflexivity.
     - cbn [snd acc_ok_from]. apply acc_ok_no_access. intros b i Hin. cbn [mop_clean] in Hc.
@@ -78,7 +78,7 @@ Section RaceConc.
     assert (T := nth_error_Forall _ _ _ _ F Ht). cbn beta in T. rewrite Hc in T. cbn [forallb] in T.
     apply andb_true_iff in T as [Tm Tr].
     destruct t as [regs prog cont out]. cbn [t_cont] in Hc. subst cont.
-    destruct m as [p i first keep|p i cand keep|delta after|h|r|r report|tb p i|p o]; cbn [exec_mop].
+    destruct m as [p i rt first keep|p i off cand keep|delta after|h|r|r report|tb p i|p o]; cbn [exec_mop].
     - destruct (slot_lookup (c_slots s) (i :: p)); [|destruct (child_is_node g p i)];
         cbn [fst upd_thread c_threads]; apply Forall_set_nth; auto; cbn [t_cont]; [destruct keep|..]; cbn [forallb mop_clean]; auto.
     - destruct (slot_lookup (c_slots s) (i :: p)); cbn [fst upd_thread c_threads]; apply Forall_set_nth; auto; cbn [t_cont];
